@@ -58,6 +58,12 @@ def c13_cases(tier, seed):
                  {"op": "update", "args": [1, 2, 3], "lr": sc(F(1, 2))},
                  {"op": "update", "args": [3, 2, 1], "lr": sc(F(1, 2))}]
         cases.append(steps)
+    # gradients that are entirely zero: the parameter is still replaced by a tracked array and its slot emptied
+    for d in ([2], [2, 2]):
+        steps = [RESET, leaf(1, d, [k + 1 for k in range(prod(d))], trk=False), leaf(2, [3], [1, 2, 3], trk=True),
+                 {"op": "setgrad", "args": [1], "g": tensor(d, [0] * prod(d))}, {"op": "update", "args": [1, 2], "lr": sc(F(1, 2))},
+                 {"op": "update", "args": [1, 2], "lr": sc(4096)}]
+        cases.append(steps)
     # gradients deposited by real passes; frozen parameters in between
     for _ in range(400 if tier == "thorough" else 60):
         n = rnd.randint(2, 4)
@@ -197,6 +203,15 @@ def c14_cases(tier, seed):
                 steps.append({"op": "m_update"})
                 steps.append({"op": "grad", "args": [h + 1], "res": h + 3})
             h += 10
+        cases.append(steps)
+    # update without any gradient (never ran backward), update with all-zero gradients, large cost arrays
+    for _ in range(8 if tier == "thorough" else 3):
+        layers = [dense_new(1, 2, 2, "none", [100, 101], rot=rnd.randrange(12))]
+        steps = [RESET] + layers + [{"op": "model_new", "layers": [1], "lr": sc(F(1, 2)), "cost": "mse"}, {"op": "m_update"},
+                                    leaf(10, [2, 2], [0, 0, 0, 0]), {"op": "m_forward", "args": [10], "res": 11},
+                                    {"op": "clone", "args": [11], "res": 12}, {"op": "m_backward", "args": [12]}, {"op": "m_update"},
+                                    leaf(20, [16, 2], small_vals(rnd, 32)), {"op": "m_forward", "args": [20], "res": 21},
+                                    leaf(22, [16, 2], small_vals(rnd, 32)), {"op": "m_backward", "args": [22]}, {"op": "m_update"}]
         cases.append(steps)
     # conv + dense stack
     for _ in range(60 if tier == "thorough" else 12):
